@@ -5,6 +5,8 @@
        length (distance); from_end is the mirror image of from_start; LineString: distance <= 0 -> first / last vertex,
        walk over lines() / rev_lines(), beyond the end -> last / first vertex; all four guards use the same relation
  R15.3 densify_between: n = ceil(distance / max) segments, interior points point_at_ratio_between(start, end, k/n), k in 1..n
+ R15.4 Densifiable for Polygon / Multi* / Rect / Triangle: every part is densified with the same metric and bound on every path
+      (Polygon: exterior and every interior; Multi*: every member; Rect / Triangle: their polygon)
 Not decided: arc-length identities, line_locate_point round trip, the strict length bound in floats.
 """
 import re
@@ -27,6 +29,7 @@ def run(rep, tier):
     line_tables(rep, F)
     linestring_tables(rep, F)
     densify(rep, F)
+    densify_containers(rep, F)
 
 
 def table(F, fn, loop_bound=1):
@@ -170,3 +173,36 @@ def densify(rep, F):
         rep.bad("R15.3", "densify_between", problems[0], where=fn.loc())
     else:
         rep.ok("R15.3", "densify_between")
+
+
+def densify_containers(rep, F):
+    rep.rule("R15.4", "Densifiable: Polygon = Polygon::new(densify(exterior), interiors.map(densify)); MultiLineString / MultiPolygon = every member densified; Rect / Triangle = densify(to_polygon()); one path each, same metric space and bound")
+    want = {
+        "polygon::Polygon<F>": r"^new\(densify\(exterior\(a1\), a2, a3\), collect\(map\(iter\(interiors\(a1\)\), closure\[a2, a3\]\)\)\)$",
+        "multi_line_string::MultiLineString<F>": r"^new\(collect\(map\(iter\(a1\), closure\[a2, a3\]\)\)\)$",
+        "multi_polygon::MultiPolygon<F>": r"^new\(collect\(map\(iter\(a1\), closure\[a2, a3\]\)\)\)$",
+        "rect::Rect<F>": r"^densify\(to_polygon\(a1\), a2, a3\)$",
+        "triangle::Triangle<F>": r"^densify\(to_polygon\(a1\), a2, a3\)$",
+    }
+    n = 0
+    for ty, pat in want.items():
+        try:
+            fn = F.one(r"^<%s%s as geo::algorithm::line_measures::densify::Densifiable<F>>::densify$" % (re.escape(GT), re.escape(ty)), crates=("geo",))
+            ps = [p for p in opaque(F, loop_bound=1).run(fn) if p.kind == "ret"]
+        except (KeyError, Unanalysable) as e:
+            rep.bad("R15.4", ty + ":anchor", str(e))
+            continue
+        n += 1
+        rets = [bare(p.ret) for p in ps]
+        cl_ok = True
+        for g in F.closures_of(fn):
+            qs = [bare(q.ret) for q in opaque(F).run(g) if q.kind == "ret"]
+            if qs != ["densify(a2, a1.0, a1.1)"]:
+                cl_ok = False
+        if len(ps) == 1 and re.match(pat, rets[0]) and cl_ok:
+            rep.ok("R15.4", ty.split("::")[-1])
+        else:
+            extra = [show_pc(p.pc)[:100] + " -> " + bare(p.ret)[:80] for p in ps if not re.match(pat, bare(p.ret))]
+            rep.bad("R15.4", ty.split("::")[-1], "%s::densify has %d result path(s); not every part is densified on %s: a part that is skipped keeps segments longer than the bound" % (
+                ty.split("::")[-1], len(ps), extra[:2] or "a member closure"), where=fn.loc())
+    rep.floor("R15.4", "container impls", n, 5)
